@@ -47,6 +47,7 @@ type Program struct {
 	users        map[*ssa.Function]map[*ssa.Function]bool
 	regions      map[*ssa.Function][]*ssa.Function
 	helperMemo   map[helperKey]int
+	Canon        []string
 	boundMemo    map[[2]interface{}][]ssa.Value
 	onCommitBusy map[*ssa.Function]bool
 }
@@ -144,11 +145,38 @@ func Load(repo, goos, goarch string) (*Program, error) {
 	}
 	p := &Program{RepoDir: repo, Fset: fset, ByPath: map[string]*packages.Package{}, SSAPkg: map[string]*ssa.Package{}, GOOS: goos, GOARCH: goarch}
 	var errs []string
-	packages.Visit(initial, nil, func(pk *packages.Package) {
-		for _, e := range pk.Errors {
-			errs = append(errs, pk.PkgPath+": "+e.Error())
+	collectErrs := func(pkgs []*packages.Package) []string {
+		var es []string
+		packages.Visit(pkgs, nil, func(pk *packages.Package) {
+			for _, e := range pk.Errors {
+				es = append(es, pk.PkgPath+": "+e.Error())
+			}
+		})
+		return es
+	}
+	errs = collectErrs(initial)
+	if len(errs) == 0 && writeNamesTo != "" {
+		if err := writeNameSnapshot(initial, writeNamesTo); err != nil {
+			return nil, err
 		}
-	})
+	}
+	// identifier canonicalisation (names.go): renamed declarations are spelled with their reference names again
+	if len(errs) == 0 && writeNamesTo == "" {
+		if overlay, notes := canonicalOverlay(initial); len(overlay) > 0 {
+			fset2 := token.NewFileSet()
+			cfg2 := *cfg
+			cfg2.Fset = fset2
+			cfg2.Overlay = overlay
+			again, err2 := packages.Load(&cfg2, patterns...)
+			if err2 == nil && len(collectErrs(again)) == 0 {
+				initial, fset = again, fset2
+				p.Fset = fset2
+				p.Canon = notes
+			} else {
+				p.Canon = []string{"canonicalisation abandoned: the program does not type-check with the reference names restored (a name collision); analysing it as written"}
+			}
+		}
+	}
 	if len(errs) > 0 {
 		sort.Strings(errs)
 		if len(errs) > 10 {
@@ -212,6 +240,9 @@ func Load(repo, goos, goarch string) (*Program, error) {
 	theProg = p
 	return p, nil
 }
+
+// writeNamesTo: when set (vcheck -write-names), Load writes the declaration snapshot of the loaded tree there.
+var writeNamesTo string
 
 // theProg: the program under analysis (set by Load; predicates built without a *Program use it to look into helpers).
 var theProg *Program
@@ -292,11 +323,41 @@ func (p *Program) Func(pkg, recv, name string) *ssa.Function {
 		return nil
 	}
 	if recv == "" {
-		return sp.Func(name)
+		if f := sp.Func(name); f != nil {
+			return f
+		}
+		// a package-level function turned into a method (same body, first parameter became the receiver): the only
+		// method of that name in the package
+		var found *ssa.Function
+		n := 0
+		for _, m := range sp.Members {
+			t, ok := m.(*ssa.Type)
+			if !ok {
+				continue
+			}
+			if f := p.Func(pkg, t.Name(), name); f != nil {
+				found = f
+				n++
+			}
+		}
+		if n == 1 {
+			return found
+		}
+		return nil
 	}
 	t := sp.Type(recv)
 	if t == nil {
 		return nil
+	}
+	// a method turned into a package-level function whose first parameter is the former receiver
+	if f := sp.Func(name); f != nil && f.Signature.Recv() == nil && len(f.Params) > 0 {
+		pt := f.Params[0].Type()
+		if ptr, ok := pt.(*types.Pointer); ok {
+			pt = ptr.Elem()
+		}
+		if types.Identical(pt, t.Type()) && !p.hasMethod(t.Type(), name) {
+			return f
+		}
 	}
 	named := t.Type()
 	for _, typ := range []types.Type{named, types.NewPointer(named)} {
@@ -319,6 +380,18 @@ func (p *Program) Func(pkg, recv, name string) *ssa.Function {
 		}
 	}
 	return nil
+}
+
+func (p *Program) hasMethod(named types.Type, name string) bool {
+	for _, typ := range []types.Type{named, types.NewPointer(named)} {
+		ms := p.SSA.MethodSets.MethodSet(typ)
+		for i := 0; i < ms.Len(); i++ {
+			if ms.At(i).Obj().Name() == name {
+				return true
+			}
+		}
+	}
+	return false
 }
 
 // Named returns a named type from a repo package.
